@@ -1166,3 +1166,199 @@ Proof.
   assert (0 <= as_out a) by (rewrite Hout; apply wsum_nonneg; intros k v Hi; apply (w_nonneg _ I d k v Hi)).
   split; [exact L1|]. split; [lia|]. intros Htl. pose proof (L4 Htl). rewrite <- (Hwin Htl). split; [reflexivity|lia].
 Qed.
+
+(** ** Part 7: the ghost log accounts for every movement of the bank (no hypothesis on the history) *)
+Definition ev_effect (e : event) (a : acct) (d : denom) : Z :=
+  match e with
+  | EvLock _ from amt => (if a =? ESC then amt_of amt d else 0) - (if a =? from then amt_of amt d else 0)
+  | EvOut _ rcpt amt => (if a =? rcpt then amt_of amt d else 0) - (if a =? ESC then amt_of amt d else 0)
+  | EvMint _ amt => if a =? ESC then amt_of amt d else 0
+  | EvBurn _ amt => - (if a =? ESC then amt_of amt d else 0)
+  end.
+Definition log_effect (l : list event) (a : acct) (d : denom) : Z := zsum (map (fun e => ev_effect e a d) l).
+
+Lemma log_effect_app l1 l2 a d : log_effect (l1 ++ l2) a d = log_effect l1 a d + log_effect l2 a d.
+Proof. unfold log_effect. rewrite map_app, zsum_app. reflexivity. Qed.
+
+Definition Acc (s s' : state) : Prop :=
+  exists evs, st_log s' = evs ++ st_log s
+    /\ forall a d, bal (st_bank s') a d = bal (st_bank s) a d + log_effect evs a d.
+
+Lemma Acc_same s s' : st_log s' = st_log s -> st_bank s' = st_bank s -> Acc s s'.
+Proof. intros Hl Hb. exists []. split; [exact Hl|]. intros a d. rewrite Hb. unfold log_effect. simpl. lia. Qed.
+
+Lemma Acc_refl s : Acc s s.
+Proof. apply Acc_same; reflexivity. Qed.
+
+Lemma Acc_trans s1 s2 s3 : Acc s1 s2 -> Acc s2 s3 -> Acc s1 s3.
+Proof.
+  intros (e1 & L1 & B1) (e2 & L2 & B2). exists (e2 ++ e1). split.
+  - rewrite L2, L1, app_assoc. reflexivity.
+  - intros a d. rewrite B2, B1, log_effect_app. lia.
+Qed.
+
+Lemma send_bal' l from to d0 x l1 : send l from to d0 x = Some l1 ->
+  forall a d, bal l1 a d = bal l a d + (if (a =? to) && (d0 =? d) then x else 0)
+                                     - (if (a =? from) && (d0 =? d) then x else 0).
+Proof.
+  intros Hs. destruct (Z.eq_dec from to) as [E|Hne]; [|exact (send_bal _ _ _ _ _ _ Hne Hs)].
+  subst to. destruct (send_Some _ _ _ _ _ _ Hs) as (Hx & _ & Heq & Hoth). intros a d.
+  destruct (Z.eqb_spec a from) as [Ea|Hna]; destruct (Z.eqb_spec d0 d) as [Ed|Hnd]; simpl; subst;
+    first [ rewrite (Heq eq_refl); lia | rewrite Hoth by pne; lia ].
+Qed.
+
+Lemma send_coins_bal' cs : forall l from to l', send_coins l from to cs = Some l' ->
+  forall a d, bal l' a d = bal l a d + (if a =? to then amt_of cs d else 0) - (if a =? from then amt_of cs d else 0).
+Proof.
+  induction cs as [|[d0 x] cs IH]; simpl; intros l from to l' Hs a d.
+  - inversion Hs; subst. destruct (a =? to), (a =? from); lia.
+  - destruct (send l from to d0 x) as [l1|] eqn:E1; [|discriminate].
+    rewrite (IH _ _ _ _ Hs a d). rewrite (send_bal' _ _ _ _ _ _ E1 a d).
+    destruct (a =? to), (a =? from), (d0 =? d); simpl; lia.
+Qed.
+
+Lemma credit_coins_bal cs : forall l a a' d', 
+  bal (credit_coins l a cs) a' d' = bal l a' d' + (if a' =? a then amt_of cs d' else 0).
+Proof.
+  induction cs as [|[d x] cs IH]; simpl; intros l a a' d'.
+  - destruct (a' =? a); lia.
+  - rewrite IH. destruct (Z.eqb_spec a' a) as [Ea|Hna]; destruct (Z.eqb_spec d d') as [Ed|Hnd]; subst;
+      first [ rewrite bal_credit_same; lia | rewrite bal_credit_other by pne; lia ].
+Qed.
+
+Lemma debit_coins_bal cs : forall l a l', debit_coins l a cs = Some l' ->
+  forall a' d', bal l' a' d' = bal l a' d' - (if a' =? a then amt_of cs d' else 0).
+Proof.
+  induction cs as [|[d x] cs IH]; simpl; intros l a l' Hs a' d'.
+  - inversion Hs; subst. destruct (a' =? a); lia.
+  - destruct (debit l a d x) as [l1|] eqn:E1; [|discriminate].
+    rewrite (IH _ _ _ Hs a' d'). destruct (debit_Some _ _ _ _ _ E1) as (_ & Hsame & Hoth).
+    destruct (Z.eqb_spec a' a) as [Ea|Hna]; destruct (Z.eqb_spec d d') as [Ed|Hnd]; subst;
+      first [ rewrite Hsame; lia | rewrite Hoth by pne; lia ].
+Qed.
+
+Lemma lock_coins_Acc s id from amt s' : lock_coins s id from amt = Some s' -> Acc s s'.
+Proof.
+  unfold lock_coins. destruct (send_coins (st_bank s) from ESC amt) as [l|] eqn:E; [|discriminate].
+  intros H; inversion H; subst. exists [EvLock id from amt]. split; [reflexivity|].
+  intros a d. unfold set_bank_log. sproj. rewrite (send_coins_bal' _ _ _ _ _ E a d).
+  unfold log_effect. simpl. lia.
+Qed.
+
+Lemma pay_out_Acc s id rcpt amt s' : pay_out s id rcpt amt = Some s' -> Acc s s'.
+Proof.
+  unfold pay_out. destruct (blocked rcpt); [discriminate|].
+  destruct (send_coins (st_bank s) ESC rcpt amt) as [l|] eqn:E; [|discriminate].
+  intros H; inversion H; subst. exists [EvOut id rcpt amt]. split; [reflexivity|].
+  intros a d. unfold set_bank_log. sproj. rewrite (send_coins_bal' _ _ _ _ _ E a d).
+  unfold log_effect. simpl. lia.
+Qed.
+
+Lemma mint_Acc s id amt : Acc s (mint s id amt).
+Proof.
+  exists [EvMint id amt]. split; [reflexivity|]. intros a d. unfold mint, set_bank_log. sproj.
+  rewrite credit_coins_bal. unfold log_effect. simpl. lia.
+Qed.
+
+Lemma burn_Acc s id amt s' : burn s id amt = Some s' -> Acc s s'.
+Proof.
+  unfold burn. destruct (debit_coins (st_bank s) ESC amt) as [l|] eqn:E; [|discriminate].
+  intros H; inversion H; subst. exists [EvBurn id amt]. split; [reflexivity|].
+  intros a d. unfold set_bank_log. sproj. rewrite (debit_coins_bal _ _ _ _ E a d).
+  unfold log_effect. simpl. lia.
+Qed.
+
+Lemma with_asset_Acc s d f s' : with_asset s d f = Some s' -> Acc s s'.
+Proof. intros H. destruct (with_asset_Some _ _ _ _ H) as (? & ? & ? & _ & _ & _ & ->). apply Acc_same; reflexivity. Qed.
+
+Lemma create_Acc s m s' : create s m = Some s' -> Acc s s'.
+Proof.
+  unfold create. destruct (negb (create_basic m)); [discriminate|]. destruct (blocked (m_to m)); [discriminate|].
+  cbv zeta. destruct (has (id_of m) (st_contracts s)); [discriminate|]. destruct (m_transfer m).
+  - destruct (create_htlt s m) as [[s1 dr]|] eqn:Hh; [|discriminate]. intros H; inversion H; subst s'.
+    apply (Acc_trans _ s1); [|apply Acc_same; reflexivity].
+    destruct (create_htlt_Some _ _ _ _ Hh) as (d & x & p & Ham & Hp & [[_ Hw]|[_ (s0 & Hw & Hl)]]).
+    + exact (with_asset_Acc _ _ _ _ Hw).
+    + exact (Acc_trans _ _ _ (with_asset_Acc _ _ _ _ Hw) (lock_coins_Acc _ _ _ _ _ Hl)).
+  - destruct (lock_coins s (id_of m) (m_sender m) (m_amount m)) as [s1|] eqn:Hl; [|discriminate].
+    intros H; inversion H; subst s'. apply (Acc_trans _ s1); [exact (lock_coins_Acc _ _ _ _ _ Hl)|apply Acc_same; reflexivity].
+Qed.
+
+Lemma claim_htlt_Acc s id c s' : claim_htlt s id c = Some s' -> Acc s s'.
+Proof.
+  unfold claim_htlt. destruct (c_amount c) as [|[d x] cs]; [discriminate|]. destruct (c_dir c); [discriminate| |].
+  - destruct (with_asset s d (dec_incoming x)) as [s1|] eqn:H1; [|discriminate].
+    destruct (with_asset s1 d (inc_current x)) as [s2|] eqn:H2; [|discriminate]. intros H3.
+    apply (Acc_trans _ s1); [exact (with_asset_Acc _ _ _ _ H1)|].
+    apply (Acc_trans _ s2); [exact (with_asset_Acc _ _ _ _ H2)|].
+    apply (Acc_trans _ (mint s2 id ((d, x) :: cs))); [apply mint_Acc|].
+    apply (Acc_trans _ (add_win (mint s2 id ((d, x) :: cs)) d x)); [apply Acc_same; reflexivity|].
+    exact (pay_out_Acc _ _ _ _ _ H3).
+  - destruct (with_asset s d (dec_outgoing x)) as [s1|] eqn:H1; [|discriminate].
+    destruct (with_asset s1 d (dec_current x)) as [s2|] eqn:H2; [|discriminate]. intros H3.
+    apply (Acc_trans _ s1); [exact (with_asset_Acc _ _ _ _ H1)|].
+    apply (Acc_trans _ s2); [exact (with_asset_Acc _ _ _ _ H2)|]. exact (burn_Acc _ _ _ _ H3).
+Qed.
+
+Lemma claim_Acc s who id secret s' : claim s who id secret = Some s' -> Acc s s'.
+Proof.
+  unfold claim. destruct (negb (addr_ok who)); [discriminate|].
+  destruct (get id (st_contracts s)) as [c|]; [|discriminate]. destruct (c_state c); try discriminate.
+  destruct (negb (secret_ok c secret)); [discriminate|].
+  destruct (if c_transfer c then claim_htlt s id c else pay_out s id (c_to c) (c_amount c)) as [s1|] eqn:Hb; [|discriminate].
+  intros H; inversion H; subst s'. apply (Acc_trans _ s1); [|apply Acc_same; reflexivity].
+  destruct (c_transfer c); [exact (claim_htlt_Acc _ _ _ _ Hb)|exact (pay_out_Acc _ _ _ _ _ Hb)].
+Qed.
+
+Lemma refund_Acc s id c : Acc s (refund s id c).
+Proof.
+  unfold refund. cbv zeta. destruct (c_transfer c).
+  - destruct (c_amount c) as [|[d x] cs]; [apply Acc_refl|]. destruct (c_dir c); [apply Acc_refl| |].
+    + destruct (with_asset s d (dec_incoming x)) as [s1|] eqn:H1; [|apply Acc_refl].
+      apply (Acc_trans _ s1); [exact (with_asset_Acc _ _ _ _ H1)|apply Acc_same; reflexivity].
+    + destruct (with_asset s d (dec_outgoing x)) as [s1|] eqn:H1; [|apply Acc_refl].
+      apply (Acc_trans _ s1); [exact (with_asset_Acc _ _ _ _ H1)|].
+      destruct (pay_out s1 id (c_sender c) ((d, x) :: cs)) as [s2|] eqn:H2; [|apply Acc_refl].
+      apply (Acc_trans _ s2); [exact (pay_out_Acc _ _ _ _ _ H2)|apply Acc_same; reflexivity].
+  - destruct (pay_out s id (c_sender c) (c_amount c)) as [s1|] eqn:H1; [|apply Acc_refl].
+    apply (Acc_trans _ s1); [exact (pay_out_Acc _ _ _ _ _ H1)|apply Acc_same; reflexivity].
+Qed.
+
+Lemma refund_one_Acc h s id : Acc s (refund_one h s id).
+Proof.
+  unfold refund_one. destruct (get id (st_contracts s)) as [c|].
+  - apply (Acc_trans _ (refund s id c)); [apply refund_Acc|apply Acc_same; reflexivity].
+  - apply Acc_same; reflexivity.
+Qed.
+
+Lemma fold_Acc {A} (f : state -> A -> state) : (forall s x, Acc s (f s x)) -> forall l s, Acc s (fold_left f l s).
+Proof.
+  intros Hf. induction l as [|x l IH]; intros s; simpl; [apply Acc_refl|].
+  exact (Acc_trans _ _ _ (Hf s x) (IH _)).
+Qed.
+
+Lemma begin_block_Acc s dt : Acc s (begin_block s dt).
+Proof.
+  unfold begin_block. cbv zeta. apply (Acc_trans _ (new_block s dt)); [apply Acc_same; reflexivity|].
+  set (s0 := new_block s dt). set (s1 := fold_left _ _ s0).
+  apply (Acc_trans _ s1); [apply fold_Acc; intros; apply refund_one_Acc|].
+  unfold update_windows. destruct (st_params s1); [apply Acc_refl|].
+  set (s2 := fold_left _ _ s1). apply (Acc_trans _ s2); [|apply Acc_same; reflexivity].
+  apply fold_Acc. intros sx x. apply Acc_same; reflexivity.
+Qed.
+
+Lemma step_Acc s o : Acc s (step s o).
+Proof.
+  unfold step. destruct o as [m|who id secret|dts]; simpl.
+  - destruct (create s m) eqn:H; [exact (create_Acc _ _ _ H)|apply Acc_refl].
+  - destruct (claim s who id secret) eqn:H; [exact (claim_Acc _ _ _ _ _ H)|apply Acc_refl].
+  - apply fold_Acc. intros; apply begin_block_Acc.
+Qed.
+
+Lemma bank_is_log_lemma P b t0 ops a d :
+  bal (st_bank (reachable P b t0 ops)) a d = bal b a d + log_effect (st_log (reachable P b t0 ops)) a d.
+Proof.
+  unfold reachable, run.
+  destruct (fold_Acc step step_Acc ops (init P b t0)) as (evs & Hl & Hb).
+  rewrite Hb, Hl. simpl. rewrite app_nil_r. reflexivity.
+Qed.
